@@ -101,7 +101,7 @@ fn mverify_line(out: &mut Sink, reg: usize, mp: &MultiProof, root: Node, shape: 
     match r {
         Ok(Ok(v)) => {
             let (inner, bis) = verified_shape(&v);
-            // `aligned`: the model's monitor of the alignment lemma must hold on everything the
+            // `aligned`: the model's run-time re-check of theorem C07.T7_1 on everything the
             // implementation accepts
             out.line(op, format!("ok {inner} {bis} aligned"));
             out.count("mverify_ok");
@@ -976,6 +976,14 @@ pub fn replay(file: &str, out: &mut Sink) {
                 out.mark_case(format!("corpus line {}", n + 1));
                 out.count("corpus_lines");
                 mverify_line(out, reg, &mp, root, &shape);
+                if cols.len() >= 4 && out.imp.last().map(|s| s.as_str()) != Some(cols[3].trim()) {
+                    out.fail(format!(
+                        "C18 corpus line {}: expected `{}` but the implementation answered `{}`",
+                        n + 1,
+                        cols[3].trim(),
+                        out.imp.last().unwrap()
+                    ));
+                }
                 let sig = out.ops.last().unwrap().clone();
                 out.nontrivial(&sig);
             }
